@@ -203,6 +203,42 @@ func (e *Engine) evCall(c *ast.CallExpr, st *State) []Value {
 					return []Value{{sx("select", h, key), e.typeOf(c)}}
 				}
 			}
+		case "called":
+			// called("f"): a tracked call to f happened on this path
+			if e.isSpecHelper(id) {
+				tv := e.pk.Info.Types[c.Args[0]]
+				if tv.Value == nil {
+					e.fail(c.Pos(), "called needs a constant function name")
+				}
+				name := strings.Trim(tv.Value.ExactString(), "\"")
+				if v, ok := st.vars[e.trackFlag(name)]; ok {
+					return []Value{v}
+				}
+				return []Value{{"false", types.Typ[types.Bool]}}
+			}
+		case "lastInt", "lastArgInt":
+			// lastInt("f"): first result of the latest call to f; lastArgInt("f", i): its i-th argument (`opt track`)
+			if e.isSpecHelper(id) {
+				tv := e.pk.Info.Types[c.Args[0]]
+				if tv.Value == nil {
+					e.fail(c.Pos(), "%s needs a constant function name", id.Name)
+				}
+				name := strings.Trim(tv.Value.ExactString(), "\"")
+				key := e.trackKey(name, 0)
+				if id.Name == "lastArgInt" {
+					iv := e.pk.Info.Types[c.Args[1]]
+					n := 0
+					if iv.Value != nil {
+						fmt.Sscan(iv.Value.ExactString(), &n)
+					}
+					key = e.trackKey(name+":arg", n)
+				}
+				v, ok := st.vars[key]
+				if !ok {
+					e.fail(c.Pos(), "%s(%q): no tracked call on this path (is the function listed in `opt track`?)", id.Name, name)
+				}
+				return []Value{e.convert(st, v, e.typeOf(c), c.Pos())}
+			}
 		case "lastErr":
 			// lastErr("f"): the error-typed result of the latest call to f (functions listed in `opt track`)
 			if e.isSpecHelper(id) {
@@ -514,10 +550,24 @@ func (e *Engine) callStatic(c *ast.CallExpr, fn *types.Func, sig *types.Signatur
 				for i, r := range res {
 					st.vars[e.trackKey(n, i)] = r
 				}
+				for i, a := range args {
+					st.vars[e.trackKey(n+":arg", i)] = a
+				}
+				st.vars[e.trackFlag(n)] = Value{"true", types.Typ[types.Bool]}
 			}
 		}
 	}
 	return res
+}
+
+func (e *Engine) trackFlag(name string) *synth {
+	k := "callres:" + name + ":called"
+	if s, ok := e.ghosts[k]; ok {
+		return s
+	}
+	s := &synth{k}
+	e.ghosts[k] = s
+	return s
 }
 
 func (e *Engine) trackKey(name string, i int) *synth {
@@ -538,7 +588,7 @@ func (e *Engine) callStatic0(c *ast.CallExpr, fn *types.Func, sig *types.Signatu
 	ct := e.contractFor(fn)
 	decl, pk := e.declOf(fn)
 	// a unit that only carries a safety sweep (no requires/ensures) says nothing a caller could use: inline it when possible
-	bare := ct != nil && len(ct.Requires) == 0 && len(ct.Ensures) == 0 && decl != nil && e.inlinable(decl)
+	bare := ct != nil && !ct.Trusted && len(ct.Requires) == 0 && len(ct.Ensures) == 0 && decl != nil && e.inlinable(decl)
 	if ct != nil && ct.Clause == nil && (e.spec == 0 || !e.canInlineSpec(decl, fn)) && !(ct.Opts["inline"] == "always") && !bare {
 		return e.applyContract(c, fn, ct, pk, decl, sig, recv, args, st)
 	}
